@@ -437,11 +437,66 @@ def report_connect(ctx, case, obs, probs, mism):
     for what, exp, act in probs:
         ctx.fail(case, what, sig=sig_of(case, obs), expected=exp, actual=act)
 
+PLUMB_FUNS = ('connect_ssh', 'connect_tls', 'connect_uds')
+PLUMB_EXTRA = [[], ['urn:example:params:my-extension:1.0'], ['urn:example:a', 'urn:ietf:params:netconf:capability:interleave:1.0']]
+
+def plumbing_case(case):
+    """The real manager.connect_* function up to the point where the session would send its hello: transport classes are
+    rebound to a stand-in constructed like the real ones (cls(device_handler), capabilities taken at construction) whose
+    connect() builds the hello exactly as _post_connect does. Observed: capabilities listed in that hello, what the
+    Manager reports, and the user's additions."""
+    import xml.etree.ElementTree as ET
+    import ncclient.transport as T
+    from ncclient import manager
+    from ncclient.transport.session import Session, HelloHandler
+    from ncclient.capabilities import Capabilities
+    class Stub(Session):
+        transport = None; _socket = None
+        def __init__(self, device_handler):
+            Session.__init__(self, Capabilities(device_handler.get_capabilities()))
+            self._device_handler = device_handler; self._connected = True; self.hello = None
+        def connect(self, *a, **k):
+            self.hello = HelloHandler.build(self._client_capabilities, self._device_handler)
+        def run(self): pass
+    names = ('SSHSession', 'TLSSession', 'UnixSocketSession')
+    saved = {n: getattr(T, n) for n in names}
+    try:
+        for n in names: setattr(T, n, Stub)
+        kw = dict(device_params={'name': case['profile']}, nc_params={'capabilities': list(case['extra'])})
+        if case['fun'] == 'connect_uds': kw['path'] = '/nonexistent'
+        else: kw['host'] = 'h'
+        m = getattr(manager, case['fun'])(**kw)
+    finally:
+        for n, v in saved.items(): setattr(T, n, v)
+    root = ET.fromstring(m._session.hello.encode())
+    listed = [e.text for e in root.iter() if e.tag.endswith('}capability') or e.tag == 'capability']
+    return dict(listed=listed, reported=list(m.client_capabilities))
+
+def plumbing_oracle(case, obs):
+    probs = []
+    if sorted(obs['listed']) != sorted(obs['reported']):
+        probs.append(('the <hello> lists %r but the manager reports %r' % (obs['listed'], obs['reported']), obs['reported'], obs['listed']))
+    # the property promises the user's additions for the default profile (vendor profiles may fix their list)
+    missing = [u for u in case['extra'] if u not in obs['listed']] if case['profile'] == 'default' else []
+    if missing:
+        probs.append(('user-supplied capabilities %r are not in the <hello> sent through %s (profile %s)' % (missing, case['fun'], case['profile']), case['extra'], obs['listed']))
+    if not any(u.startswith('urn:ietf:params:netconf:base:') for u in obs['listed']):
+        probs.append(('no base URI in the <hello>', 'a base URI', obs['listed']))
+    return probs
+
 def run(ctx):
     import os, json, glob
     from vlib import paths
     from ncclient import manager
     rng = ctx.rng
+    for fun in PLUMB_FUNS:
+        for prof in PROFILES:
+            for extra in PLUMB_EXTRA:
+                case = dict(kind='plumbing', fun=fun, profile=prof, extra=extra)
+                obs = plumbing_case(case)
+                ctx.count(case, nontrivial=bool(extra), key=['plumb', fun, prof, extra]); ctx.hist('plumbing', fun)
+                for what, exp, act in plumbing_oracle(case, obs):
+                    ctx.fail(case, what, sig=None, expected=exp, actual=act)
     quick = ctx.tier == 'quick'
     # (0) corpus
     for p in sorted(glob.glob(os.path.join(paths.CORPUS, 'C05', '*.json'))):
@@ -549,6 +604,10 @@ def reproduce(finding):
 
 def replay(doc):
     case = doc['case']
+    if case.get('kind') == 'plumbing':
+        obs = plumbing_case(case); probs = plumbing_oracle(case, obs)
+        print('case     :', case); print('observed :', obs); print('problems :', [p[0] for p in probs] or 'none')
+        return not probs
     if case.get('kind') == 'parse':
         t = case['tree']; t['children'] = [tuple(c) if not isinstance(c[1], list) else (c[0], [tuple(i) for i in c[1]]) for c in t['children']]
         im, sp = impl_parse(tree_xml(t)), spec_parse(t)
